@@ -50,11 +50,14 @@ fn pools(ty: &str) -> Vec<(Value, String)> {
         "NaiveDateTime" => pool!(chrono::NaiveDateTime, [chrono::NaiveDate::from_ymd_opt(2020, 2, 29).unwrap().and_hms_opt(1, 2, 3).unwrap()]),
         "DateTime<Utc>" => pool!(chrono::DateTime<chrono::Utc>, [chrono::DateTime::<chrono::Utc>::from_timestamp(1_600_000_000, 5).unwrap()]),
         "DateTime<Local>" => pool!(chrono::DateTime<chrono::Local>, [chrono::DateTime::<chrono::Local>::from(chrono::DateTime::<chrono::Utc>::from_timestamp(1_600_000_000, 5).unwrap()), chrono::DateTime::<chrono::Local>::from(chrono::DateTime::<chrono::Utc>::from_timestamp(-1, 0).unwrap())]),
-        "DateTime<FixedOffset>" => pool!(chrono::DateTime<chrono::FixedOffset>, [chrono::DateTime::parse_from_rfc3339("2020-01-02T03:04:05+08:00").unwrap()]),
+        "DateTime<FixedOffset>" => pool!(chrono::DateTime<chrono::FixedOffset>, [chrono::DateTime::parse_from_rfc3339("2020-01-02T03:04:05+08:00").unwrap(),
+            chrono::DateTime::parse_from_rfc3339("1969-12-31T20:29:59-03:30").unwrap(), chrono::DateTime::parse_from_rfc3339("2020-01-02T03:04:05+00:00").unwrap()]),
         "time::Date" => pool!(time::Date, [time::Date::from_calendar_date(2020, time::Month::February, 29).unwrap()]),
         "time::Time" => pool!(time::Time, [time::Time::from_hms(1, 2, 3).unwrap()]),
         "PrimitiveDateTime" => pool!(time::PrimitiveDateTime, [time::PrimitiveDateTime::new(time::Date::from_calendar_date(2020, time::Month::February, 29).unwrap(), time::Time::from_hms(1, 2, 3).unwrap())]),
-        "OffsetDateTime" => pool!(time::OffsetDateTime, [time::OffsetDateTime::from_unix_timestamp(1_600_000_000).unwrap()]),
+        "OffsetDateTime" => pool!(time::OffsetDateTime, [time::OffsetDateTime::from_unix_timestamp(1_600_000_000).unwrap(),
+            time::OffsetDateTime::from_unix_timestamp(1_600_000_000).unwrap().to_offset(time::UtcOffset::from_hms(8, 0, 0).unwrap()),
+            time::OffsetDateTime::from_unix_timestamp(-1).unwrap().to_offset(time::UtcOffset::from_hms(-3, -30, 0).unwrap())]),
         "Decimal" => pool!(rust_decimal::Decimal, [rust_decimal::Decimal::new(12345, 2), rust_decimal::Decimal::new(-1, 0), rust_decimal::Decimal::new(100, 2)]),
         "BigDecimal" => pool!(bigdecimal::BigDecimal, [bigdecimal::BigDecimal::from_str("123.450").unwrap(), bigdecimal::BigDecimal::from_str("-0.001").unwrap()]),
         "Uuid" => pool!(uuid::Uuid, [uuid::Uuid::nil(), uuid::Uuid::from_u128(0x1234_5678_9abc_def0_1234_5678_9abc_def0)]),
